@@ -376,6 +376,14 @@ def builtin (f : String) (args : List Val) : Option (R Val) :=
     match args with
     | .str s :: _ => some (.ok (.str ("error: " ++ s)))
     | _ => some (.stuck "errors.New")
+  else if f = "copyInto" then
+    -- `copy(d[a:b], src)` as a value: the window [a, b) of d receives the first min(b-a, len src) elements of src
+    match args with
+    | [.list xs, .int a, .int b, .list ys] =>
+      if 0 ≤ a ∧ a ≤ b ∧ b ≤ xs.length then
+        some (.ok (.list (xs.take a.toNat ++ ys.take (min (b - a).toNat ys.length) ++ xs.drop (a.toNat + min (b - a).toNat ys.length))))
+      else some .panic
+    | _ => some (.stuck "copy")
   else if f = "fmt.Sprintf" then
     -- the formatted text is not modelled: a string determined by the format (pure, no effect)
     match args with
